@@ -15,22 +15,11 @@ pub struct AttrString { pub o: u64 }
 //@extract Identity
 //@include shims/access_common.rs
 pub const UUID_ANONYMOUS: Uuid = Uuid(@@constexpr:UUID_ANONYMOUS:uuid!\("([0-9a-f-]+)"\):uuidhex@@);
+//@include shims/access_identity.rs
 impl Identity {
 //@extract access_scope
-    pub uninterp spec fn memberof(&self) -> Option<Set<Uuid>>;
-    pub uninterp spec fn uuid(&self) -> Uuid;
-    #[verifier::external_body] pub fn get_memberof(&self) -> (r: Option<&BTreeSet<Uuid>>)
-        ensures r is Some == self.memberof() is Some, r is Some ==> r->Some_0@ == self.memberof()->Some_0 { unimplemented!() }
-    #[verifier::external_body] pub fn get_uuid(&self) -> (r: Uuid) ensures r == self.uuid() { unimplemented!() }
 }
-// R3b: the LazyLock static, as an accessor whose contents are read from the static's own initializer on every run
-#[verifier::external_body] pub fn kvx_static_PROTECTED_ENTRY_CLASSES() -> (r: &'static BTreeSet<String>)
-    ensures r@ == protected_entry_classes() { unimplemented!() }
-pub open spec fn protected_entry_classes() -> Set<String> {
-//@static_list PROTECTED_ENTRY_CLASSES set![{}] each=ec_string(%)
-}
-#[verifier::external_body] pub fn kvx_static_MIGRATION_IGNORE_CLASSES() -> (r: &'static BTreeSet<String>) { unimplemented!() }
-#[verifier::external_body] pub fn kvx_static_MIGRATION_ENTRY_CLASSES() -> (r: &'static BTreeSet<String>) { unimplemented!() }
+//@include shims/access_statics.rs
 //@extract AccessControlReceiverCondition
 //@extract AccessControlTargetCondition
 //@extract AccessControlDelete
@@ -42,8 +31,6 @@ pub open spec fn builtin(e: &EntrySealedCommitted) -> bool { e.uuid().0 <= UUID_
 // a protected entry: carries one of the protected classes named by the statement (system, domain/system info+config, dyngroup,
 // sync object, tombstone, recycled) — the list is the code's own PROTECTED_ENTRY_CLASSES, compared with the statement's list below
 pub open spec fn protected(e: &EntrySealedCommitted) -> bool { e.classes() matches Some(c) && !c.disjoint(protected_entry_classes()) }
-pub open spec fn is_user(i: &Identity) -> bool { i.origin is User }
-pub open spec fn read_only(i: &Identity) -> bool { !(i.scope is ReadWrite) }
 // "granted by an access control profile matching that user and that entry": the profile's receiver condition holds for the
 // identity (group membership was checked when the profile was selected; entry-manager needs a back reference) and its target
 // filter matches the entry
